@@ -904,7 +904,9 @@ theorem findIdx?_spaces_right (sp : List ANode) (h : ∀ x ∈ sp, x.kind = .spa
   intro x hx; simp [h x hx]
 
 /-- **`convert_args_in_math`**: `(`, white space, content, white space, `)`. -/
-theorem convArgsInMath_carries_sp (e : Env) (r : Rec) (hr : RecOK r Q) (hrM : RecOKM r QM) (ctx : Ctx) (hm : ctx.mode = .math)
+theorem convArgsInMath_carries_gen (e : Env) (r : Rec) (ctx : Ctx)
+    {okc : Ctx → ANode → Prop} (hprod : ProducerH (mathArgProducer e r) specAll okc)
+    (hspc : ∀ cc (c : ANode), okc cc c → c.kind = .space → specAll c = {})
     (lp rp : ANode) (sp1 mid sp2 : List ANode) (a : Attrs)
     (hlp : lp.kind = .leftParen) (hrp : rp.kind = .rightParen)
     (hlex : ANode.tokensAreLeavesL (lp :: (sp1 ++ (mid ++ (sp2 ++ [rp])))) = true)
@@ -912,7 +914,7 @@ theorem convArgsInMath_carries_sp (e : Env) (r : Rec) (hr : RecOK r Q) (hrM : Re
     (hhead : ∀ c, mid.head? = some c → (c.kind == .leftParen || c.kind == .space) = false)
     (hlast : ∀ c, mid.getLast? = some c → (c.kind == .rightParen || c.kind == .space) = false)
     (hempty : mid = [] → sp2 = [])
-    (hseq : MathSeqOK Q QM false mid) :
+    (hseq : okSeq okc ctx false mid) :
     Post (convArgsInMath e r ctx (.inner .args (lp :: (sp1 ++ (mid ++ (sp2 ++ [rp])))) a))
       (fun d => Carries d (specAll (.inner .args (lp :: (sp1 ++ (mid ++ (sp2 ++ [rp])))) a))) := by
   have hv : isVerbatimNode .args (lp :: (sp1 ++ (mid ++ (sp2 ++ [rp])))) a = false := by simp [isVerbatimNode, Kind.isExpr]
@@ -1027,9 +1029,10 @@ theorem convArgsInMath_carries_sp (e : Env) (r : Rec) (hr : RecOK r Q) (hrM : Re
   obtain ⟨i, hi⟩ := hi
   obtain ⟨j, hj⟩ := hj
   simp only [hi, hj, Option.getD_some, hslice i j hi hj]
-  have hflow := flowM_carriesH (sem := specAll) (commentOK e) (mathArgProducer_ok e r hr hrM)
-    (fun cc c hok hk => okM_space cc c hok hk) mid (mathSeq_okSeq ctx hm mid false hseq) false
-  rw [contribL_specAll _ (mathSeq_lex mid false hseq)] at hflow
+  have hlexmid : ANode.tokensAreLeavesL mid = true :=
+    tokensAreLeavesL_of_mem (fun x hx => tokensAreLeavesL_mem hlex'.2 (by simp [hx]))
+  have hflow := flowM_carriesH (sem := specAll) (commentOK e) hprod hspc mid hseq false
+  rw [contribL_specAll _ hlexmid] at hflow
   refine Post.bind hflow (fun inner hin => ?_)
   have hp := syn_paren e
   split
@@ -1045,6 +1048,21 @@ theorem convArgsInMath_carries_sp (e : Env) (r : Rec) (hr : RecOK r Q) (hrM : Re
       · exact Carries.line_
     · exact Carries.line_
   · exact Post.pure (by simpa using hin.enclose hp.1 hp.2)
+
+/-- The same for content without named or spread arguments. -/
+theorem convArgsInMath_carries_sp (e : Env) (r : Rec) (hr : RecOK r Q) (hrM : RecOKM r QM) (ctx : Ctx) (hm : ctx.mode = .math)
+    (lp rp : ANode) (sp1 mid sp2 : List ANode) (a : Attrs)
+    (hlp : lp.kind = .leftParen) (hrp : rp.kind = .rightParen)
+    (hlex : ANode.tokensAreLeavesL (lp :: (sp1 ++ (mid ++ (sp2 ++ [rp])))) = true)
+    (hs1 : ∀ x ∈ sp1, x.kind = .space) (hs2 : ∀ x ∈ sp2, x.kind = .space)
+    (hhead : ∀ c, mid.head? = some c → (c.kind == .leftParen || c.kind == .space) = false)
+    (hlast : ∀ c, mid.getLast? = some c → (c.kind == .rightParen || c.kind == .space) = false)
+    (hempty : mid = [] → sp2 = [])
+    (hseq : MathSeqOK Q QM false mid) :
+    Post (convArgsInMath e r ctx (.inner .args (lp :: (sp1 ++ (mid ++ (sp2 ++ [rp])))) a))
+      (fun d => Carries d (specAll (.inner .args (lp :: (sp1 ++ (mid ++ (sp2 ++ [rp])))) a))) :=
+  convArgsInMath_carries_gen e r ctx (mathArgProducer_ok e r hr hrM) (fun cc c hok hk => okM_space cc c hok hk)
+    lp rp sp1 mid sp2 a hlp hrp hlex hs1 hs2 hhead hlast hempty (mathSeq_okSeq ctx hm mid false hseq)
 
 end Typstyle
 
